@@ -418,60 +418,12 @@ def _ctx_of(func, dom, bid, skip=None):
 
 
 def scoped_decls(func):
-    """{name: [(block, init expr)]} for locals that are only ever defined by declarations with a call-free initialiser (several
-    declarations of one name in sibling scopes are fine), never assigned, incremented or address-taken"""
-    key = ('scoped', func.tu, func.name)
-    if key in _SCOPED:
-        return _SCOPED[key]
-    decls = {}
-    bad = set()
-    for bid, _, ev in func.events():
-        if ev['k'] == 'decl':
-            for d in ev['d']:
-                i_ = d.get('init')
-                if i_ is not None and not cf.calls_in(i_) and cf.strip_casts(i_).get('k') != 'initlist':
-                    decls.setdefault(d['n'], []).append((bid, i_))
-                else:
-                    bad.add(d['n'])
-        elif ev['k'] == 'assign':
-            l = cf.strip_casts(ev['lhs'])
-            if isinstance(l, dict) and l.get('k') == 'ref':
-                bad.add(l['n'])
-        for k in ('e', 'lhs', 'rhs', 'val'):
-            if ev.get(k) is not None:
-                for n in cf.walk(ev[k]):
-                    if n.get('k') == 'un' and n.get('op') == '&':
-                        x = cf.strip_casts(n['e'])
-                        if isinstance(x, dict) and x.get('k') == 'ref':
-                            bad.add(x['n'])
-    pn = {p['name'] for p in func.params}
-    res = {n: v for n, v in decls.items() if n not in bad and n not in pn}
-    _SCOPED[key] = res
-    return res
-
-
-_SCOPED = {}
+    return func.scoped_decls()
 
 
 def expand(func, e, bid, depth=0):
     """tree with every local that has exactly one dominating call-free declaration replaced by its initialiser"""
-    sd = scoped_decls(func)
-    if not sd or depth > 4:
-        return e
-    dom = func.dominators()
-
-    def go(x):
-        if isinstance(x, list):
-            return [go(y) for y in x]
-        if not isinstance(x, dict):
-            return x
-        if x.get('k') == 'ref' and not x.get('p') and not x.get('g') and x.get('n') in sd:
-            cands = [(b, i_) for b, i_ in sd[x['n']] if b in dom.get(bid, ())]
-            if len(cands) == 1:
-                return expand(func, cands[0][1], cands[0][0], depth + 1)
-            return x
-        return {k: (go(v) if isinstance(v, (dict, list)) else v) for k, v in x.items()}
-    return go(e)
+    return func.expand(e, bid, depth)
 
 
 def split_ternary(e, limit=3):
